@@ -30,11 +30,14 @@ With(i, v) == [k |-> "with", i |-> i, v |-> v]
 StoreS(key, v) == [k |-> "stores", key |-> key, v |-> v]
 DeleteS(key) == [k |-> "deletes", key |-> key]
 
-\* ---- initial arrays: every dense form, a hole, a trailing hole
-LitQuick == << <<>>, <<"i1", "i2", "i10">>, <<"i1", "f1.5">>, <<"i2", "-0">>, <<"i1", "sa", "obj">>,
-               <<"i10", "hole", "i2">>, <<"u", "NaN", "i0">> >>
-LitFull == LitQuick \o << <<"i1">>, <<"f1.5", "i2", "sa">>, <<"hole", "i1">>, <<"i1", "hole">>, <<"obj", "u", "i1", "i1">>,
-                          <<"i2", "i10", "i1", "i0">> >>
+\* ---- initial arrays: every dense form, holes, the Array constructor forms
+Lit(els) == [c |-> "lit", els |-> els, n |-> 0]
+New(els) == [c |-> "new", els |-> els, n |-> 0]
+OfLen(n) == [c |-> "len", els |-> <<>>, n |-> n]
+LitQuick == << Lit(<<>>), Lit(<<"i1", "i2", "i10">>), Lit(<<"i1", "f1.5">>), Lit(<<"i2", "-0">>), Lit(<<"i1", "sa", "obj">>),
+               Lit(<<"i10", "hole", "i2">>), Lit(<<"u", "NaN", "i0">>), New(<<"i2", "i1">>), OfLen(2) >>
+LitFull == LitQuick \o << Lit(<<"i1">>), Lit(<<"f1.5", "i2", "sa">>), Lit(<<"hole", "i1">>), Lit(<<"i1", "hole">>),
+                          Lit(<<"obj", "u", "i1", "i1">>), Lit(<<"i2", "i10", "i1", "i0">>), New(<<"f1.5", "obj", "i1">>), OfLen(0) >>
 
 \* ---- state-changing operations used to grow the state space
 ExploreCore ==
@@ -68,6 +71,16 @@ ProbeCore ==
      K("flat"), With(0, "f1.5"), With(-1, "obj"), With(Big + 2, "i1"),
      K("toReversed"), K("toSorted"), ToSpliced(1, TRUE, 1, <<"sa">>), ToSpliced(0, FALSE, 0, <<>>),
      K("map"), K("filter"), K("forEach"), K("okeys"), K("forin") >>
+
+\* ---- a genuinely far index (length 201): operations whose cost is linear in the length are affordable here
+Far == 200
+LitFar == << Lit(<<"i1", "i2">>), Lit(<<"i1", "hole", "f1.5">>), Lit(<<>>) >>
+ExploreFar == << Store(Far, "i1"), SetLen(Far + 1), Define(Far, "ro"), Define(Far, "gk"), Store(Far, "obj") >>
+ProbeFar == << Read(Far), Delete(Far), SetLen(1), SetLen(Far), Store(Far - 1, "f1.5"), Define(Far - 1, "nc"), K("freeze"),
+               Push(<<"i1">>), K("pop"), K("shift"), Unshift(<<"sa">>), K("reverse"), K("sort"),
+               IndexOf("i1", 2), LastIndexOf("i1", FALSE, 0), Includes("u", -3), At(-1), Slice(-2, FALSE, 0),
+               Fill("i2", -2, FALSE, 0), CopyWithin(0, -2, FALSE, 0), Splice(-1, FALSE, 0, <<>>), K("flat"), K("okeys"),
+               With(-1, "i2"), Join(",") >>
 
 None == <<>>
 ProbeQuick == ExploreMore \o ProbeCore
